@@ -401,3 +401,56 @@ def known_witnesses(prop, algos):
                     case = copy.deepcopy(w)
                     out.append((case, a, k["id"]))
     return out
+
+
+# ---------------------------------------------------------------------------
+# histories on one input object (the properties quantify over histories too; a pure model has no state)
+
+
+def inplace_history(res, case, other_costs, algo, policies=("all", "any"), what_prefix=""):
+    """Solve; change `inp.costs` IN PLACE (as the package's own tests do); solve; change back; solve — on ONE input
+    object.  Each result must be what a FRESH input with the same costs gives (cost; under `all` also the set).
+    Returns False after recording a violation."""
+    import contextlib
+    import copy
+    import io
+
+    from superrec2.utils.dynamic_programming import RetentionPolicy
+
+    from .sr import PLAIN, algorithms, build_input, canon_solution, costs_of, enc_cost, solution_key
+
+    v2 = copy.deepcopy(case)
+    v2["costs"] = other_costs
+    for pol in policies:
+        inp = build_input(case, force_plain=(algo in PLAIN))
+        original = dict(inp.costs)
+        changed = costs_of({"costs": other_costs})
+        for costs, ref, what in ((original, case, "first call on the object"),
+                                 (changed, v2, "costs of the input object changed in place"),
+                                 (original, case, "costs of the input object changed back in place")):
+            inp.costs.clear()
+            inp.costs.update(costs)
+            try:
+                with contextlib.redirect_stderr(io.StringIO()):
+                    rs = [algorithms()[algo](inp)] if algo == "lca" else \
+                        list(algorithms()[algo](inp, getattr(RetentionPolicy, pol.upper())))
+                cs = sorted({enc_cost(o.cost()) for o in rs}, key=str)
+                got = {"cost": cs[0] if len(cs) == 1 else (None if not cs else cs),
+                       "sols": sorted((canon_solution(o) for o in rs), key=solution_key)}
+            except Exception as e:  # noqa
+                got = {"err": type(e).__name__}
+            want = strip(run_algo(ref, algo, pol))
+            res.dist["history: in-place cost change on one input object"] += 1
+            if ("err" in got) != ("err" in want):
+                res.violation(f"{what_prefix}{algo} ({pol}): {what}: {got.get('err')} vs a fresh input {want.get('err')}",
+                              {"case": case, "algo": algo, "policy": pol, "history": [full_costs(case), other_costs]})
+                return False
+            if "err" in got:
+                continue
+            if got["cost"] != want["cost"] or (pol == "all" and keys(got["sols"]) != keys(want["sols"])):
+                res.violation(
+                    f"{what_prefix}{algo} ({pol}): after '{what}' the result (cost {got['cost']}, {len(got['sols'])} solutions) "
+                    f"differs from a fresh input with the same costs (cost {want['cost']}, {len(want['sols'])} solutions)",
+                    {"case": case, "algo": algo, "policy": pol, "history": [full_costs(case), other_costs]})
+                return False
+    return True
